@@ -156,6 +156,9 @@ Definition history (t0 : Z) (ops : list op) : option (state * list obs) :=
   | Some s => run s ops
   end.
 
+(* what every observer knows without asking: NewProvider at t0 makes key 1 *)
+Definition key_one (t0 : Z) : key := {| k_id := 1; k_val := 1; k_nb := t0; k_na := t0 + key_validity |}.
+
 (* ---- the property oracle, written from the text of C12 (never calls the model) ----
    An observation list is in call (lock) order. *)
 Definition obs_time (b : obs) : Z := match b with BCur _ t _ => t | BGet _ t _ _ => t end.
